@@ -14,4 +14,5 @@ let lookup (p : string) : Model.val0 -> Model.val0 =
   | "C16" -> Model.run_C16
   | "C12" -> Model.run_C12
   | "C19" -> Model.run_C19
+  | "C07" -> Model.run_C07
   | _ -> failwith ("unknown property " ^ p)
